@@ -16,7 +16,8 @@
     Hypothesis of all three theorems: fewer than 2^31 - 1 threads (the 31-bit reference count cannot
     overflow into the should-be-on-freelist bit). *)
 From Coq Require Import ZArith List String Lia.
-From LV Require Import Base.Conc Base.Events Model.FreeList Proofs.FreeListBase Proofs.FreeListThm.
+From LV Require Import Base.Conc Base.Events Model.FreeList Model.FreeListTagged Proofs.FreeListBase Proofs.FreeListThm
+  Proofs.FreeListTaggedSafe Proofs.FreeListTaggedThm.
 Import ListNotations.
 Local Open Scope Z_scope.
 Local Open Scope string_scope.
@@ -82,5 +83,59 @@ Proof.
   - split.
     + cbn. repeat constructor; cbn; intuition discriminate.
     + cbn. intros n [<-|[]]. lia.
+  - vm_compute. repeat split; reflexivity.
+Qed.
+
+(** ** cds::intrusive::TaggedFreeList (double-width {ptr,tag} CAS).
+    Hypothesis, stated: the tag does not wrap — [nowrap k tr]: k + (number of successful CASes on m_Head in
+    the trace) < 2^64 (the tag starts at k after the k set-up puts and is incremented, modulo 2^64 in the
+    model, by every successful push and pop). *)
+Theorem C21_tagged_no_double_get :
+  forall (fuel k : nat) (ths : list (list op * list nat)) c,
+    wf_init k ths ->
+    Conc.reach (tinit_cfg fuel k ths) c -> nowrap k (Conc.trace c) ->
+    exists own, mon_run (own_init ths) (Conc.trace c) = Some own.
+Proof. intros fuel k ths c Hwf. exact (tagged_no_double_get fuel k ths Hwf c). Qed.
+Print Assumptions C21_tagged_no_double_get.
+
+Theorem C21_tagged_unique_holder :
+  forall (fuel k : nat) (ths : list (list op * list nat)) c,
+    wf_init k ths ->
+    Conc.reach (tinit_cfg fuel k ths) c -> nowrap k (Conc.trace c) ->
+    exists own l,
+      mon_run (own_init ths) (Conc.trace c) = Some own /\
+      chain (tnext (Conc.shared c)) (thead (Conc.shared c)) l /\ NoDup l /\
+      (forall n, In n l -> valid_init k ths n = true /\ own n = None) /\
+      (forall n, valid_init k ths n = true -> own n = None ->
+                 In n l \/ exists t, opens t (Conc.trace c) <> 0).
+Proof. intros fuel k ths c Hwf. exact (tagged_unique_holder fuel k ths Hwf c). Qed.
+Print Assumptions C21_tagged_unique_holder.
+
+Theorem C21_tagged_no_loss :
+  forall (fuel k : nat) (ths : list (list op * list nat)) c,
+    wf_init k ths ->
+    Conc.reach (tinit_cfg fuel k ths) c -> nowrap k (Conc.trace c) -> quiescent (Conc.trace c) ->
+    exists own l,
+      mon_run (own_init ths) (Conc.trace c) = Some own /\
+      tseq_ok (Conc.shared c) l /\
+      (forall n, In n l <-> valid_init k ths n = true /\ own n = None) /\
+      (forall f cn, (List.length l < cn)%nat -> tdrain (S f) cn (Conc.shared c) = l).
+Proof. intros fuel k ths c Hwf. exact (tagged_no_loss fuel k ths Hwf c). Qed.
+Print Assumptions C21_tagged_no_loss.
+
+(** non-vacuity: the ABA schedule (thread 0 stalls between its next load and its CAS while thread 1 pops
+    both nodes and pushes the first one back) ends quiescent, the tag has not wrapped, thread 0's CAS failed
+    (the tag had moved on) *)
+Example C21_tagged_nonvacuous :
+  let ths := [([OGet], []); ([OGet; OGet; OPut 0], [])] in
+  wf_init 2 ths /\
+  let r := Conc.run 1000 0 ([0;0;0] ++ repeat 1 15 ++ repeat 0 9)%nat (tinit_cfg 50 2 ths) in
+  snd r = true /\ nowrap 2 (Conc.trace (fst r)) /\
+  forallb (fun t => Z.eqb (opens t (Conc.trace (fst r))) 0) [0;1]%nat = true /\
+  existsb (fun e => match e with (0%nat, EvAcc KCas _ false) => true | _ => false end) (Conc.trace (fst r)) = true /\
+  List.length (filter (is_cli "ret_get") (map snd (Conc.trace (fst r)))) = 3%nat.
+Proof.
+  split.
+  - split; [cbn; constructor|cbn; intros n []].
   - vm_compute. repeat split; reflexivity.
 Qed.
